@@ -58,6 +58,25 @@ class Unknown(object):
         return 'Unknown(%s)' % self.what
 
 
+class ClosureEnv(dict):
+    """local names of a nested function over the defining environment"""
+
+    def __init__(self, outer):
+        dict.__init__(self)
+        self.outer = outer
+
+    def __contains__(self, k):
+        return dict.__contains__(self, k) or k in self.outer
+
+    def __getitem__(self, k):
+        if dict.__contains__(self, k):
+            return dict.__getitem__(self, k)
+        return self.outer[k]
+
+    def get(self, k, d=None):
+        return self[k] if k in self else d
+
+
 class Return(Exception):
     def __init__(self, value):
         self.value = value
@@ -77,9 +96,14 @@ class Raised(Exception):
 
 
 def is_generator(fdef):
-    for node in ast.walk(fdef):
+    todo = list(fdef.body)
+    while todo:
+        node = todo.pop()
         if isinstance(node, (ast.Yield, ast.YieldFrom)):
             return True
+        if isinstance(node, (ast.FunctionDef, ast.Lambda, ast.ClassDef)):
+            continue
+        todo.extend(ast.iter_child_nodes(node))
     return False
 
 
@@ -120,6 +144,13 @@ class Evaluator(object):
         self.class_own = class_own or {}
         self.class_bases = class_bases or {}
         self._callstack = []
+        # call module level functions of `module` by evaluating them
+        self.inline_module_functions = False
+        # id(FunctionDef) -> (module, class name): evaluation context of
+        # methods that live in another module than `module`
+        self.context_of = {}
+        # callable(Sym) -> bool: does the name denote a class
+        self.sym_is_class = None
 
     # ------------------------------------------------------------------
 
@@ -147,6 +178,10 @@ class Evaluator(object):
                 raise AnalysisError('%s: missing argument %s' % (
                     fdef.name, n))
         saved = self.yielded
+        saved_ctx = (self.module, self.clsname)
+        ctx = self.context_of.get(id(fdef))
+        if ctx is not None:
+            self.module, self.clsname = ctx
         self.yielded = []
         self._callstack.append(fdef)
         try:
@@ -159,6 +194,7 @@ class Evaluator(object):
         finally:
             self.yielded = saved
             self._callstack.pop()
+            self.module, self.clsname = saved_ctx
         return ret, ys
 
     def _super_lookup(self, owner, name):
@@ -225,6 +261,7 @@ class Evaluator(object):
                 if self.iter_hook is None:
                     self.err(st, 'iteration over an abstract object')
                 it = self.iter_hook(it)
+            broke = False
             for item in it:
                 self.assign(st.target, item, env)
                 try:
@@ -232,7 +269,13 @@ class Evaluator(object):
                 except LoopContinue:
                     continue
                 except LoopBreak:
+                    broke = True
                     break
+            if not broke and st.orelse:
+                self.block(st.orelse, env)
+            return
+        if isinstance(st, ast.Try):
+            self.try_stmt(st, env)
             return
         if isinstance(st, ast.While):
             while self.truth(self.expr(st.test, env), st.test):
@@ -249,11 +292,50 @@ class Evaluator(object):
         if isinstance(st, ast.Break):
             raise LoopBreak()
         if isinstance(st, ast.FunctionDef):
-            env[st.name] = ('closure', st, env)
+            env[st.name] = ('closure', st, env, self.module, self.clsname)
             return
         if isinstance(st, ast.Raise):
             raise Raised(ast.unparse(st.exc) if st.exc else '')
         self.err(st, 'unsupported statement')
+
+    CONTROL = (Return, LoopContinue, LoopBreak, AnalysisError)
+
+    def try_stmt(self, st, env):
+        """try/except/finally; exceptions are `Raised` (a raise statement
+        or a failing subscript of the evaluated code) and the Python
+        exceptions of stand-in functions (StopIteration from next())."""
+        try:
+            try:
+                self.block(st.body, env)
+            except self.CONTROL:
+                raise
+            except Exception as exc:
+                if isinstance(exc, Raised):
+                    name = exc.text.split('(')[0].split(':')[0].strip()
+                else:
+                    name = type(exc).__name__
+                for h in st.handlers:
+                    if h.type is None:
+                        names = None
+                    elif isinstance(h.type, ast.Tuple):
+                        names = [ast.unparse(x) for x in h.type.elts]
+                    else:
+                        names = [ast.unparse(h.type)]
+                    if names is None or name in names or \
+                            'Exception' in names or 'BaseException' in names:
+                        if h.name:
+                            env[h.name] = Obj('exception', kind=name,
+                                              text=getattr(exc, 'text',
+                                                           str(exc)))
+                        self.block(h.body, env)
+                        break
+                else:
+                    raise
+            else:
+                self.block(st.orelse, env)
+        finally:
+            if st.finalbody:
+                self.block(st.finalbody, env)
 
     def assign(self, target, val, env):
         if isinstance(target, ast.Name):
@@ -271,6 +353,12 @@ class Evaluator(object):
                 self.assign(t, v, env)
         elif isinstance(target, ast.Subscript):
             obj = self.expr(target.value, env)
+            if isinstance(target.slice, ast.Slice):
+                sl = target.slice
+                lo = self.expr(sl.lower, env) if sl.lower else None
+                hi = self.expr(sl.upper, env) if sl.upper else None
+                obj[lo:hi] = val
+                return
             idx = self.expr(target.slice, env)
             obj[idx] = val
         else:
@@ -331,6 +419,8 @@ class Evaluator(object):
         if isinstance(base, Obj):
             if base.has(e.attr):
                 return getattr(base, e.attr)
+            if e.attr == '__class__':
+                return Obj('type', __name__=base.__dict__['_cls'])
             if env.get('self') is base and e.attr in self.methods and \
                     base.__dict__['_cls'] not in self.class_methods:
                 fd = self.methods[e.attr]
@@ -501,6 +591,44 @@ class Evaluator(object):
         return dict(self._comp(e, env, lambda sub: (
             self.expr(e.key, sub), self.expr(e.value, sub))))
 
+    def call_closure(self, f, args, kwargs, e=None):
+        # the closure shares the defining environment for reads; names it
+        # binds itself are local (python semantics without `nonlocal`)
+        fd = f[1]
+        sub = ClosureEnv(f[2])
+        names = [x.arg for x in fd.args.args]
+        defaults = [None] * (len(names) - len(fd.args.defaults)) + \
+            list(fd.args.defaults)
+        if len(args) > len(names):
+            self.err(e or fd, 'too many arguments for closure')
+        for nme, v in zip(names, args):
+            sub[nme] = v
+        for nme, d in list(zip(names, defaults))[len(args):]:
+            if kwargs and nme in kwargs:
+                sub[nme] = kwargs[nme]
+            elif d is not None:
+                sub[nme] = self.expr(d, f[2])
+            else:
+                self.err(e or fd, 'missing closure argument %s' % nme)
+        gen = is_generator(fd)
+        saved = self.yielded
+        saved_ctx = (self.module, self.clsname)
+        if len(f) >= 5:
+            self.module, self.clsname = f[3], f[4]
+        if gen:
+            self.yielded = []
+        try:
+            try:
+                self.block(fd.body, sub)
+                ret = None
+            except Return as r:
+                ret = r.value
+            ys = self.yielded
+        finally:
+            self.yielded = saved
+            self.module, self.clsname = saved_ctx
+        return ys if gen else ret
+
     def x_Yield(self, e, env):
         self.yielded.append(self.expr(e.value, env) if e.value else None)
         return None
@@ -513,6 +641,13 @@ class Evaluator(object):
                 obj = self.expr(e.args[0], env)
                 targ = e.args[1]
                 tnodes = targ.elts if isinstance(targ, ast.Tuple) else [targ]
+                if len(tnodes) == 1 and isinstance(tnodes[0], ast.Name) \
+                        and tnodes[0].id == 'type' and 'type' not in env:
+                    # isinstance(x, type): class objects are Syms
+                    if isinstance(obj, Sym):
+                        return bool(self.sym_is_class and
+                                    self.sym_is_class(obj))
+                    return False
                 if isinstance(obj, Obj) and all(isinstance(
                         t, (ast.Name, ast.Attribute)) for t in tnodes):
                     # class names are taken from the syntax (they may be
@@ -571,17 +706,18 @@ class Evaluator(object):
             if is_generator(f[1]):
                 return ys
             return ret
+        if isinstance(f, Obj):
+            cm = self.class_methods.get(f.__dict__['_cls'], {})
+            if '__call__' not in cm:
+                self.err(e, 'call of an abstract object without __call__')
+            f = ('method', cm['__call__'], f)
+        if isinstance(f, tuple) and f[0] == 'method':
+            ret, ys = self.call(f[1], args, kwargs, self_obj=f[2])
+            if is_generator(f[1]):
+                return ys
+            return ret
         if isinstance(f, tuple) and f[0] == 'closure':
-            sub = dict(f[2])
-            fd = f[1]
-            names = [x.arg for x in fd.args.args]
-            for nme, v in zip(names, args):
-                sub[nme] = v
-            try:
-                self.block(fd.body, sub)
-            except Return as r:
-                return r.value
-            return None
+            return self.call_closure(f, args, kwargs, e)
         if isinstance(f, tuple) and f[0] == 'pyfunc':
             return f[1](*args, **kwargs)
         if isinstance(f, tuple) and f[0] == 'regex':
@@ -592,6 +728,12 @@ class Evaluator(object):
         if isinstance(f, Sym):
             if f.name in self.functions:
                 return self.functions[f.name](*args, **kwargs)
+            if self.inline_module_functions and \
+                    f.module == self.module.name and \
+                    f.name in self.module.functions:
+                fd = self.module.functions[f.name]
+                ret, ys = self.call(fd, args, kwargs)
+                return ys if is_generator(fd) else ret
             # construction of a namedtuple-like record
             return ('record', f.name, tuple(args), kwargs)
         self.err(e, 'unsupported call')
